@@ -834,6 +834,40 @@ class RefModel:
         self.last_flags = set(ctx.flags)
         return out, ctx.fragile
 
+    def zero_power_base(self, name, t, states: dict, params: dict) -> bool:
+        """does the expression of `name` (through the intermediates it uses) contain a power whose base evaluates to exactly 0 at this
+        point?  (sympy differentiates b**e as b**e * (e' log b + e b'/b): 0 * inf at such a point)"""
+        vals, _ = self.evaluate(t, states, params)
+        base = dict(params)
+        base.update(states)
+
+        def lookup(n):
+            if n in ("t", "time"):
+                return t
+            if n in base:
+                return base[n]
+            return vals[n]
+
+        seen = set()
+
+        def walk(node):
+            if node[0] == "bin" and node[1] == "**":
+                try:
+                    if _val(_num(ev(node[2], Ctx(lookup)))) == 0:
+                        return True
+                except Exception:  # noqa: BLE001
+                    pass
+            if node[0] == "var" and node[1] in self.assigns and node[1] not in seen:
+                seen.add(node[1])
+                if walk(self.assigns[node[1]].ast):
+                    return True
+            return any(walk(c_) for c_ in _children(node))
+
+        try:
+            return walk(self.assigns[name].ast)
+        except Exception:  # noqa: BLE001
+            return False
+
     def rhs(self, t, states, params, **sw):
         vals, frag = self.evaluate(t, states, params, **sw)
         return {s: vals[f"d{s}_dt"] for s in self.states}, frag
@@ -986,6 +1020,8 @@ class GenOpts:
     own_forms: tuple | None = None
     singular: int = 0  # number of removable singular factors to plant (C16)
     infinite_sing: bool = False
+    singular_param: bool = False  # True: the singular point of the first planted factor (and of 2 in 3 of the others) is the value of a
+    #                               used *parameter* (`(x - a)/(exp(x - a) - 1)` with `a` declared in parameters(...)) instead of a literal
     annotations: bool = True  # ScalarParam / trailing comments / units / comment lines
     shuffle: float = 0.3
     unused: bool = True
@@ -1261,6 +1297,8 @@ def _gen_once(rng: random.Random, o: GenOpts, seed: int) -> Model:
         nP = max(nP, rng.randint(1, 3))
     if want_dref:
         nI = max(nI, 1)
+    if o.singular and o.singular_param:
+        nP = max(nP, 1)
     S = rng.sample(STATE_NAMES, nS)
     P = rng.sample(PARAM_NAMES, nP)
     I = rng.sample(INTER_NAMES, nI)
@@ -1294,6 +1332,8 @@ def _gen_once(rng: random.Random, o: GenOpts, seed: int) -> Model:
         unused_I = [n for n in I if n in set(unused_I) | set(rng.sample(I, min(k, len(I))))]
         if len(unused_P) == len(P):
             unused_P = unused_P[1:]
+    if o.singular and o.singular_param and len(unused_P) == len(P):
+        unused_P = unused_P[1:]
     usedP = [p for p in P if p not in unused_P]
     usedI = [n for n in I if n not in unused_I]
     exprs: dict = {}
@@ -1340,6 +1380,8 @@ def _gen_once(rng: random.Random, o: GenOpts, seed: int) -> Model:
         kinds = list(SINGULAR_FORMS)
         for k in range(o.singular):
             plan_sing.append((rng.choice(kinds), rng.choice(S), rng.choice(["0", "0", "1", "2", "-1"])))
+        if o.singular_param:  # the singular point is the value of a parameter (the first factor always, the others 2 in 3)
+            plan_sing = [(kind, sv, rng.choice(usedP) if (k == 0 or rng.random() < 2 / 3) else a) for k, (kind, sv, a) in enumerate(plan_sing)]
     dexpr = {}
     for si, s in enumerate(S):
         must = []
@@ -1399,7 +1441,7 @@ def _gen_once(rng: random.Random, o: GenOpts, seed: int) -> Model:
         tgt = rng.choice(S)
         fac = build(sv, a)
         dexpr[tgt] = f"{fac}*({dexpr[tgt]})" if rng.random() < 0.5 else f"{dexpr[tgt]} + {_lit(rng, feats, positive=True)}*{fac}"
-        sing_points.append((sv, float(a), kind, f"d{tgt}_dt"))
+        sing_points.append((sv, a if a in P else float(a), kind, f"d{tgt}_dt"))
     if o.infinite_sing:
         sv = rng.choice(S)
         tgt = rng.choice(S)
